@@ -272,3 +272,49 @@ _make('gcacgmm', 250, 4000)
           min_nontrivial=0.05)
 def monotone_tied(d, ctx):
     _check(d, ctx, d.choice(['cacgmm', 'cwmm', 'gmm']), 30, tied=True)
+
+
+@subcheck(SUBCHECKS, 'monotone_recording_sized', quick=6, thorough=24, min_nontrivial=0.0)
+def monotone_recording_sized(d, ctx):
+    """the same law on a problem of the size of a real recording (tens of
+    frequency bins, thousands of frames: F*K*D*N of 4e6..1e7), where
+    implementations switch to blockwise or memory-bounded code paths; a few
+    cases per run, seconds each."""
+    kind = d.choice(['cacgmm', 'cacgmm', 'cacgmm', 'gmm', 'cwmm'])
+    K = d.int(2, 3)
+    D = d.int(3, 4)
+    F = d.int(24, 64)
+    target = 2 ** 22 * d.float(1.15, 2.2)
+    N = int(target / (F * K * D)) + d.int(1, 7)
+    rng = d.rng()
+    complex_ = not mm.real_kind(kind)
+    case = mm.Case(kind=kind, lead=(F,), K=K, D=D, N=N, iterations=3)
+    case.y, labels = mm.cluster_data(rng, (F,), K, N, D, complex_, 0.7)
+    if d.int(0, 3) > 0:
+        # sources active one after the other (a conversation), not interleaved
+        order = np.argsort(labels, axis=-1, kind='stable')
+        case.y = np.take_along_axis(case.y, order[..., None], axis=-2)
+        ctx.label('sources-in-turns')
+    case.init = np.moveaxis(rng.dirichlet(np.ones(K) * 2, size=(F, N)), -1, -2)
+    case.opts = {}
+    if kind == 'gmm':
+        case.opts['covariance_type'] = d.choice(['full', 'diagonal', 'spherical'])
+    case.meta.update(data='none', init='dirichlet')
+    ctx.describe(**case.describe())
+    ctx.label(kind, 'recording-sized')
+    trace, final = _trajectory(ctx, case)
+    lls = []
+    for model in trace:
+        if guard_active(model, case):
+            ctx.label('guard-active')
+            break
+        lls.append(oracle_ll(model, case))
+    total_n = F * N
+    for i in range(1, len(lls)):
+        tol = 1e-9 * (1 + abs(lls[i - 1])) + 1e-9 * total_n
+        if not np.isfinite(lls[i]) or lls[i] < lls[i - 1] - tol:
+            raise Violation(
+                'log-likelihood-decreased',
+                f'recording-sized {kind} F={F} K={K} D={D} N={N}: iteration {i}->{i + 1}: '
+                f'{lls[i - 1]:.12g} -> {lls[i]:.12g}', kind=kind)
+    ctx.nontrivial(len(lls) >= 2)
